@@ -132,3 +132,47 @@ def l4_cases(ctx, n):
             cases.append(c)
     ctx.dist["l4_carry_directed"] = dict(hits)
     return cases
+
+
+def tunnel_len_cases(ctx, n):
+    """GRE / ERSPAN / VXLAN outer headers whose word sum is steered (through the low half of the session's destination
+    address, measured in a first pass) onto the residues 0, 1, 2, 0xfffe mod 0xffff and onto sums whose fold carries:
+    the cases an incrementally updated or once-folded checksum gets wrong"""
+    r = ctx.rng
+    tmpl = []
+    for i in range(n):
+        kind = ("gre", "erspan1", "erspan2", "vxlan")[i % 4]
+        a, b = rand_ip(r) | (0xf000f000 if i % 3 == 0 else 0), rand_ip(r) & 0xffff0000
+        tmpl.append((kind, a, b, r.choice([0, 1, 58, 100, 333])))
+
+    def stmts(t, w):
+        kind, a, b, ln = t
+        b = b | w
+        decl = {"gre": Call("gre::session", IP(a), IP(b), INT(0x6558)), "erspan1": Call("erspan1::session", IP(a), IP(b)),
+                "erspan2": Call("erspan2::session", IP(a), IP(b)),
+                "vxlan": Call("vxlan::session", SOCK(a, 4789), SOCK(b, 4789))}[kind]
+        inner = Call("ipv4::udp::unicast", SOCK("1.2.3.4:1"), SOCK("1.2.3.5:2"), _x=[STR(b"\x5a" * ln)])
+        return [Import(m) for m in ("ipv4", "gre", "erspan1", "erspan2", "vxlan")] + [Let("s", decl), Do(Call("s.encap", inner))]
+
+    _, res = common.run_programs("carry-tun", {"q%d" % i: render_program(stmts(t, 0)) for i, t in enumerate(tmpl)})
+    cases, hits = [], {}
+    for i, t in enumerate(tmpl):
+        rr = res["q%d" % i]
+        if rr.status != "ok":
+            continue
+        ok, recs = common.pcap_records(rr.pcap)
+        if not recs:
+            continue
+        h = recs[0][4][14:34]
+        s0 = raw_sum(h[:10] + b"\0\0" + h[12:])
+        want = [("residue-%d" % resid, (resid - s0) % 0xffff) for resid in (0, 1, 2, 0xfffe)]
+        want += [("fold-carry", x) for x in pick(lambda x: first_fold_carries(s0 + x), 1)]
+        for k, w in want:
+            hits[k] = hits.get(k, 0) + 1
+            c = Case()
+            c.name, c.files, c.text, c.meta = "u%d_%d" % (i, w), {}, None, []
+            c.gen = {"kind": "tunnel-carry", "carry": k}
+            c.stmts = stmts(t, w)
+            cases.append(c)
+    ctx.dist["tunnel_carry_directed"] = dict(hits)
+    return cases
